@@ -207,12 +207,20 @@ class Structure:
         return np.array([r["xyz"] for r in self.records if topo.heavy(r["name"])])
 
 
+TIP_ATOMS = {
+    "LYS": [("NZ", "CE")], "ARG": [("NH1", "CZ"), ("NH2", "CZ")], "SER": [("OG", "CB")], "THR": [("OG1", "CB"), ("CG2", "CB")],
+    "TYR": [("OH", "CZ")], "LEU": [("CD1", "CG"), ("CD2", "CG")], "ILE": [("CD1", "CG1")], "VAL": [("CG1", "CB"), ("CG2", "CB")],
+    "MET": [("CE", "SD")], "ALA": [("CB", "CA")], "ASN": [("ND2", "CG")], "GLN": [("NE2", "CD")], "CYS": [("SG", "CB")],
+    "PHE": [("CZ", "CE1")], "TRP": [("CH2", "CZ2")], "HIS": [("NE2", "CE1")],
+}  # fmt: skip
+
+
 def _place_contact(P1, P2, target, dirv, gap):
     """Shift P2 along dirv from `target` until its closest atom is >= gap from P1."""
     dirv = np.asarray(dirv, float)
     nrm = np.linalg.norm(dirv)
     dirv = dirv / nrm if nrm > 1e-6 else np.array([1.0, 0.0, 0.0])
-    d = 2.0
+    d = min(2.0, gap)
     while True:
         shift = target + dirv * d
         dm = np.min(np.linalg.norm((P2 + shift)[:, None] - P1[None], axis=-1))
@@ -253,6 +261,7 @@ def materialise(desc) -> Structure:
             r["atoms"] = {k: R @ (v - cen) for k, v in r["atoms"].items()}
         con = ch.get("contact")
         ssb = ch.get("ss_to")
+        shift = None
         if ssb is not None and built:
             # place this chain so that its CYS SG lies at distance d from the SG of an
             # already placed chain, on the outward ray through that SG
@@ -269,8 +278,52 @@ def materialise(desc) -> Structure:
             P1 = np.vstack(placed_xyz)
             P2 = np.array([v for r in res for v in r["atoms"].values()])
             tgt = P1[con["target"] % len(P1)]
-            shift = _place_contact(P1, P2, tgt, con["dir"], con["gap"])
-        else:
+            if con.get("tip"):
+                # aim at the tip atom of a side chain of an earlier chain, along its last bond, so that
+                # ALL hydrogens added to the tip bump into the approaching chain
+                tips = []
+                if con["tip"] == "dropped":
+                    # aim at the position of an atom that is LEFT OUT of the input (and will be rebuilt)
+                    for cj, chain_res in enumerate(built):
+                        dl = {(d[0], d[1]) for d in desc["chains"][cj].get("drop", [])}
+                        for (ri_, nm) in sorted(dl):
+                            rr = chain_res[ri_]
+                            for par in rr["bonds"].get(nm, []):
+                                if (ri_, par) not in dl and par in rr["atoms"] and nm in rr["atoms"] and topo.heavy(par):
+                                    tips.append((rr["atoms"][nm], rr["atoms"][nm] - rr["atoms"][par]))
+                for rr in (x for chain_res in built for x in chain_res) if not tips else ():
+                    for tip_name, prev_name in TIP_ATOMS.get(BASE.get(rr["name"], rr["name"]), []):
+                        if tip_name in rr["atoms"] and prev_name in rr["atoms"]:
+                            tips.append((rr["atoms"][tip_name], rr["atoms"][tip_name] - rr["atoms"][prev_name]))
+                if tips:
+                    tgt, dirv = tips[con["target"] % len(tips)]
+                    u = dirv + 0.15 * np.asarray(con["dir"], float)
+                    u = u / np.linalg.norm(u)
+                    # single-atom approach: one heavy atom of this chain sits exactly `gap` beyond the
+                    # tip, the rest of the chain is turned to point away from it
+                    names_flat = [(ri, k) for ri, r in enumerate(res) for k in r["atoms"] if topo.heavy(k)]
+                    ri, k = names_flat[con["target"] % len(names_flat)]
+                    anchor = res[ri]["atoms"][k]
+                    cenB = P2.mean(0)
+                    v = cenB - anchor
+                    if np.linalg.norm(v) > 1e-6:
+                        v = v / np.linalg.norm(v)
+                        axis = np.cross(v, u)
+                        sn, cs = np.linalg.norm(axis), float(np.dot(v, u))
+                        if sn > 1e-6:
+                            ang = np.degrees(np.arctan2(sn, cs))
+                            for r in res:
+                                keys = list(r["atoms"])
+                                pts = rot_about([r["atoms"][q] for q in keys], anchor, anchor + axis, ang)
+                                r["atoms"] = dict(zip(keys, pts))
+                    shift = tgt + u * con["gap"] - res[ri]["atoms"][k]
+                    newP = np.array([v for r in res for v in r["atoms"].values()]) + shift
+                    dmin = np.min(np.linalg.norm(newP[:, None] - P1[None], axis=-1))
+                    if dmin < min(1.0, con["gap"] - 0.05):
+                        shift = None  # would sit on top of an earlier chain (e.g. the same tip twice)
+            if shift is None:
+                shift = _place_contact(P1, P2, tgt, con["dir"], con["gap"])
+        if shift is None:
             shift = np.asarray(ch.get("shift", [40.0 * ci, 0.0, 0.0]), float)
         for r in res:
             r["atoms"] = {k: v + shift for k, v in r["atoms"].items()}
